@@ -22,6 +22,7 @@ type c11Runner struct {
 	sc        c11Scenario
 	f         c11Fault
 	hold      bool
+	fam       int // family of the run (index of c11Hung)
 	hang      time.Duration
 	full      time.Duration
 	st        *c11Stream
@@ -42,6 +43,7 @@ type c11Runner struct {
 	cbReg     []bool
 	cb        []int32
 	nextID    uint32
+	svcSeq    int // frames of type Call fed so far (c11blocked.go)
 	faulted   bool
 	faultAt   time.Time
 	userClose chan error
@@ -87,9 +89,16 @@ func (r *c11Runner) waitCall(c int, d time.Duration) bool {
 	}
 }
 
-// c11Hung counts runs in which some wait hit its deadline; after a few of them the
-// enumeration stops (the violation is established, the remaining runs would only wait).
-var c11Hung int32
+// c11Hung counts, per family of runs (0: the scenario enumeration, 1: the blocked-consumer runs of
+// c11blocked.go, 2: the many-handler runs of c11many.go), the runs in which some wait hit its
+// deadline; after a few of them the enumeration of that family stops (the remaining runs would only
+// wait).  A family is not stopped by the deadlines of another one: a change may make the runs of
+// one family wait (without any oracle failing) and break the property only in another.
+var c11Hung [3]int32
+
+func c11HungTotal() int32 {
+	return atomic.LoadInt32(&c11Hung[0]) + atomic.LoadInt32(&c11Hung[1]) + atomic.LoadInt32(&c11Hung[2])
+}
 
 // c11HungFail counts the hung runs in which a property oracle failed as well.
 var c11HungFail int32
@@ -98,7 +107,7 @@ var c11HungFail int32
 func (r *c11Runner) missed() {
 	if r.hang > 100*time.Millisecond {
 		r.hang = 100 * time.Millisecond
-		atomic.AddInt32(&c11Hung, 1)
+		atomic.AddInt32(&c11Hung[r.fam], 1)
 	}
 }
 
@@ -197,7 +206,7 @@ func (r *c11Runner) fire() {
 		r.lab("LConnDie")
 		r.lab("LReadFail")
 		r.failHeld()
-	case "rkind":
+	case "rkind", "dwkind0", "dwkindp": // (a dwkind fault whose service call found room in the queue: a plain read failure)
 		st.killKind(c11KindByName(r.f.ek), r.f.once)
 		r.lab("LConnDie")
 		r.lab("LReadFail")
